@@ -66,8 +66,9 @@ Hypotheses that REMAIN (named, hence `_partial`):
   weight descending; weights non-zero and < 2^32) and the record was built by the builder;
 * `Checked`: every event passed `eventcheck` with its claimed frame and parent list (C13's `U32`: Go's
   field types).
-Not modelled: the reload of the index from `BranchesInfo` on restart (the restarted model keeps the
-persisted `VState`), the forkless-cause result cache (C07 treats it separately), store caches (C33).
+Modelled separately (Props/VecPersist.lean): the reload of the index from its store and `BranchesInfo` on restart
+(here the restarted model keeps the persisted `VState`, which VecPersist proves is what the reload yields).
+Not modelled: the forkless-cause result cache (C07 treats it separately), store caches (C33).
 -/
 namespace Consensus
 open Model.Pos Model.Election Model.Orderer Model.Vec Model.Indexed VecProofs ElectionRules ElectionRefine
@@ -572,7 +573,7 @@ theorem indexed_epoch_partial (N : Net) (vals : Vals) (app₁ app₂ : App) (ep 
       by the builder for that epoch's validators;
     * `hchk` (`Checked`): every event passed the event checks;
     * `hs₁`, `hs₂`: both applications seal by the same function; same initial `(ep, vals)`.
-    Not covered: restarts combined with seals. -/
+    Restarts combined with seals: `indexed_restarts_multi_epoch_partial` below. -/
 theorem indexed_multi_epoch_partial (app₁ app₂ : App) (sealAt : Nat → Nat → Option Vals)
     (hs₁ : app₁.sealAt = sealAt) (hs₂ : app₂.sealAt = sealAt) (ps : List IEpochPair) (ep : Nat) (vals : Vals)
     (hok : IndexedEpochsOK sealAt ep vals ps) :
